@@ -756,7 +756,7 @@ const SINGLES: &[Variant] = &[
 ];
 
 fn random_part(rep: &mut Report, tier: Tier, seed: u64) {
-    let n_cases = tier.pick(600u64, 40_000u64);
+    let n_cases = tier.pick(1500u64, 40_000u64);
     let budget = tier.pick(220usize, 350usize);
     let mut reduced_cache: BTreeMap<String, Vec<String>> = BTreeMap::new();
     let mut rejected_examples: BTreeMap<String, String> = BTreeMap::new();
@@ -1382,7 +1382,7 @@ fn directed_histories() -> Vec<(GraphSpec, Query, Vec<&'static str>, Vec<Vec<Op>
 }
 
 fn history_part(rep: &mut Report, tier: Tier, seed: u64) {
-    let n_cases = tier.pick(150u64, 8_000u64);
+    let n_cases = tier.pick(400u64, 8_000u64);
     let budget = tier.pick(120usize, 250usize);
     let mut reduced_cache: BTreeMap<String, Vec<String>> = BTreeMap::new();
     let directed = directed_histories();
